@@ -705,7 +705,8 @@ class ApplicationStartJobs(ApplicationJobs):
             self.logger.trace('ApplicationStartJobs.on_command_added: searching a Supvisors instance among'
                               f' {self.identifiers} to start {command.process.namespec} with load={load}'
                               f' / load_request_map={load_request_map}')
-            identifier = get_supvisors_instance(self.supvisors, self.starting_strategy, self.identifiers,
+            identifier = get_supvisors_instance(self.supvisors, self.starting_strategy,
+                                                self.get_process_identifiers(command.process),
                                                 load, load_request_map)
             if identifier:
                 self.logger.debug(f'ApplicationStartJobs.on_command_added: {command.process.namespec} is planned to'
@@ -714,6 +715,17 @@ class ApplicationStartJobs(ApplicationJobs):
             else:
                 self.logger.debug(f'ApplicationStartJobs.on_command_added: {command.process.namespec} cannot'
                                   f' be started on any of the chosen Supvisors among {self.identifiers}')
+
+    def get_process_identifiers(self, process: ProcessStatus) -> NameList:
+        """ Return the Supvisors instances chosen for the non-distributed application where the process can actually
+        be started, i.e. the Supervisor knows the program and the program is not disabled.
+        In the SINGLE_NODE case, the Supvisors instances of the node do not necessarily know all the programs.
+
+        :param process: the process to start
+        :return: the applicable identifiers, in the order of the chosen identifiers
+        """
+        return [identifier for identifier in self.identifiers
+                if identifier in process.info_map and not process.disabled_on(identifier)]
 
     def get_load_requests(self) -> LoadMap:
         """ Extract by Supvisors instance the processes that are planned to start but still stopped
@@ -759,10 +771,12 @@ class ApplicationStartJobs(ApplicationJobs):
             for command in commands:
                 process_load = command.process.rules.expected_load
                 identifier = get_supvisors_instance(self.supvisors, self.starting_strategy,
-                                                    self.identifiers, process_load, load_request_map)
+                                                    self.get_process_identifiers(command.process),
+                                                    process_load, load_request_map)
                 self.logger.debug(f'ApplicationStartJobs.distribute_to_single_node: {command.process.namespec}'
                                   f' is planned to start on Supvisors={identifier}')
-                command.update_identifier(identifier)
+                if identifier:
+                    command.update_identifier(identifier)
         else:
             self.logger.debug('ApplicationStartJobs.distribute_to_single_node: no Supvisors instance found to plan'
                               f' the starting of {self.application_name} with load={application_load}')
